@@ -16,6 +16,9 @@ pub const RULE: &str = "cases (matrix) = symmetric matrices of dimension 1..8: S
 pub struct Case {
     pub a: Mat,
     pub tol: Option<f64>,
+    /// the tolerance is +infinity (JSON cannot carry it inside `tol`)
+    #[serde(default)]
+    pub tol_inf: bool,
     #[serde(default)]
     pub require_zero_det: bool,
     #[serde(default)]
@@ -23,7 +26,12 @@ pub struct Case {
 }
 
 pub fn gen_case(t: &mut Tape, tier: Tier) -> Option<Case> {
-    let tol = if t.chance(0.25) { None } else { Some(10f64.powf(t.uniform(-12.0, 2.0))) };
+    let tol = match t.weighted(&[0.25, 0.65, 0.1]) {
+        0 => None,
+        1 => Some(10f64.powf(t.uniform(-12.0, 2.0))),
+        // every f64 is a legal tolerance: the extremes of the type
+        _ => Some(*t.pick(&[f64::INFINITY, f64::MAX, 1e300, 5e-324, 1e-300, 1.0])),
+    };
     let mut require = false;
     let (a, class): (Mat, &'static str) = match t.below(8) {
         7 => {
@@ -122,7 +130,8 @@ pub fn gen_case(t: &mut Tape, tier: Tier) -> Option<Case> {
             (a, "hilbert-like(ill-conditioned)")
         }
     };
-    Some(Case { a, tol, require_zero_det: require, class: class.into() })
+    let tol_inf = tol == Some(f64::INFINITY);
+    Some(Case { a, tol: if tol_inf { None } else { tol }, tol_inf, require_zero_det: require, class: class.into() })
 }
 
 fn has_nan(d: &Decomp) -> bool {
@@ -165,9 +174,11 @@ pub fn check_decomp_ok(a: &Mat, d: &Decomp, tol: Option<f64>, what: &str) -> Res
 }
 
 pub fn check(c: &Case, ctx: &mut Ctx) -> Result<(), Failure> {
+    let eff_tol = if c.tol_inf { Some(f64::INFINITY) } else { c.tol };
+    let c = &Case { tol: eff_tol, ..c.clone() };
     let a = &c.a;
     let n = a.len();
-    if n == 0 || n > 8 || a.iter().any(|r| r.len() != n) || a.iter().flatten().any(|x| !x.is_finite()) || c.tol.map(|t| !(t > 0.0 && t.is_finite())).unwrap_or(false) {
+    if n == 0 || n > 8 || a.iter().any(|r| r.len() != n) || a.iter().flatten().any(|x| !x.is_finite()) || c.tol.map(|t| !(t > 0.0)).unwrap_or(false) {
         fail!("bad-case", "not a finite square matrix of dimension 1..8 / bad tolerance");
     }
     for i in 0..n {
@@ -209,7 +220,10 @@ pub fn check(c: &Case, ctx: &mut Ctx) -> Result<(), Failure> {
 #[derive(Clone, Debug, Serialize, Deserialize)]
 pub struct SCase {
     pub p: Phys,
+    /// finite tolerance; ignored when `tol_inf`
     pub tol: f64,
+    #[serde(default)]
+    pub tol_inf: bool,
 }
 pub fn gen_sample(t: &mut Tape, tier: Tier) -> Option<SCase> {
     let mo = if t.bool() { 1.0 / 64.0 } else { 0.15 };
@@ -224,8 +238,9 @@ pub fn gen_sample(t: &mut Tape, tier: Tier) -> Option<SCase> {
     if k > 0 {
         p.classes.push("sprinkled-extreme".into());
     }
-    let tol = 10f64.powf(t.uniform(-12.0, 0.0));
-    Some(SCase { p, tol })
+    let tol = if t.chance(0.1) { *t.pick(&[f64::INFINITY, f64::MAX, 1e300]) } else { 10f64.powf(t.uniform(-12.0, 0.0)) };
+    let tol_inf = tol == f64::INFINITY;
+    Some(SCase { p, tol: if tol_inf { 1.0 } else { tol }, tol_inf })
 }
 fn sample_d<const D: usize>(c: &SCase, ctx: &mut Ctx) -> Result<(), Failure> {
     let p = &c.p;
@@ -265,9 +280,10 @@ fn sample_d<const D: usize>(c: &SCase, ctx: &mut Ctx) -> Result<(), Failure> {
     Ok(())
 }
 pub fn check_sample(c: &SCase, ctx: &mut Ctx) -> Result<(), Failure> {
+    let c = &SCase { tol: if c.tol_inf { f64::INFINITY } else { c.tol }, ..c.clone() };
     // the closed lower end (exact zeros) is part of this property's domain
     let (_ne, _nl) = phys::validate(&c.p)?;
-    if !(c.tol > 0.0 && c.tol.is_finite()) {
+    if !(c.tol > 0.0) {
         fail!("bad-case", "bad tolerance");
     }
     with_d!(c.p.g.d, sample_d(c, ctx))
